@@ -119,19 +119,38 @@ struct Explicit {
 }
 
 /// Play `moves` (explicit) or tape-chosen library moves from `start`, checking every node.
-fn playout(ctx: &mut Ctx, start: &Pos, explicit: Option<&[Mv]>, tape: Option<&mut Tape>, max_plies: usize, special_bias: bool) -> Result<(), Violation> {
+/// The start board of a playout: loaded, or - when `origin` names a source position and a way -
+/// obtained from the source position's board by a null move or the deprecated editing API
+/// (`editapi::other_ways`), which is one more way of standing at a valid position.
+fn start_board(start: &Pos, origin: Option<(&Pos, &str)>) -> Option<Board> {
+    match origin {
+        None => gen::lib_start(start),
+        Some((src, how)) => {
+            let b0 = gen::lib_start(src)?;
+            super::editapi::other_ways(src, &b0, 3).into_iter().find(|(vp, _, h)| vp == start && h == how).map(|(_, vb, _)| vb)
+        }
+    }
+}
+
+fn playout(ctx: &mut Ctx, start: &Pos, origin: Option<(&Pos, &str)>, explicit: Option<&[Mv]>, tape: Option<&mut Tape>, max_plies: usize, special_bias: bool) -> Result<(), Violation> {
     ctx.set_case(json!({"start": start.fen(), "moves": []}));
-    let mut board = match gen::lib_start(start) {
+    let mut board = match start_board(start, origin) {
         Some(b) => b,
         None => {
             ctx.reject();
             return Ok(());
         }
     };
+    if origin.is_some() {
+        ctx.class("playout:start-obtained-by-null-move-or-editing");
+    }
     let mut tape = tape;
     let mut played: Vec<Mv> = vec![];
     let mut prev = observe(&board);
-    let mk_case = |played: &Vec<Mv>| json!({"start": start.fen(), "moves": played.iter().map(|m| m.uci()).collect::<Vec<_>>() });
+    let mk_case = |played: &Vec<Mv>| match origin {
+        None => json!({"start": start.fen(), "moves": played.iter().map(|m| m.uci()).collect::<Vec<_>>() }),
+        Some((src, how)) => json!({"start": start.fen(), "start_obtained_from": src.fen(), "through": how, "moves": played.iter().map(|m| m.uci()).collect::<Vec<_>>() }),
+    };
     ctx.set_case(mk_case(&played));
     check_node(ctx, &board, &prev, &|| mk_case(&played))?;
     let (mut saw_cap, mut saw_promo, mut saw_rights) = (false, false, false);
@@ -293,7 +312,18 @@ pub fn run(cfg: &Cfg) -> i32 {
                 }
             };
             let mut t = Tape::new(&raw.choices);
-            playout(ctx, &start, None, Some(&mut t), 400, raw.policy % 2 == 0)
+            // one playout in eight starts from a board obtained by a null move or through the
+            // deprecated editing API from the generated position
+            if raw.start_sel % 8 == 3 {
+                if let Some(b0) = gen::lib_start(&start) {
+                    let ways = super::editapi::other_ways(&start, &b0, 3);
+                    if !ways.is_empty() {
+                        let (vp, _, how) = &ways[(raw.policy as usize) % ways.len()];
+                        return playout(ctx, vp, Some((&start, how.as_str())), None, Some(&mut t), 400, raw.policy % 2 == 0);
+                    }
+                }
+            }
+            playout(ctx, &start, None, None, Some(&mut t), 400, raw.policy % 2 == 0)
         })?;
         // complete trees
         let strat2 = gen::raw_hist_strategy(0, 12);
@@ -325,7 +355,7 @@ pub fn run(cfg: &Cfg) -> i32 {
     engine::finish(
         report,
         EvidenceSpec {
-            rule: "cases = (a) long playouts (up to 400 plies or termination) choosing among the library's own generated moves (obtained, varying along the history, in one pass, by the staged captures-first idiom, through three or five destination masks each iterated to exhaustion, or from enumerate_moves), from curated and directly set-up valid starts, (b) complete trees of the library's generated moves to depth 2 from every curated position and depth 3-4 (quick) / 4-5 (thorough, by branching factor; capped at 400k nodes) from generated mid-game positions; every node is checked for king count, mover not left in check (reference attack test on the library's placement), no pawn on ranks 1/8, is_sane(), and every edge for monotone castling rights, men and pawns. evaluations = nodes. Non-trivial = a playout containing a capture, a promotion and a rights change, or a complete tree of depth >= 3; distinct = fingerprints of (start, moves) / (root, depth).".into(),
+            rule: "cases = (a) long playouts (up to 400 plies or termination) choosing among the library's own generated moves (obtained, varying along the history, in one pass, by the staged captures-first idiom, through three or five destination masks each iterated to exhaustion, or from enumerate_moves), from curated, directly set-up and planted valid starts (one playout in eight from the board that a null move, clear_square or set_piece makes of such a position), (b) complete trees of the library's generated moves to depth 2 from every curated position and depth 3-4 (quick) / 4-5 (thorough, by branching factor; capped at 400k nodes) from generated mid-game positions; every node is checked for king count, mover not left in check (reference attack test on the library's placement), no pawn on ranks 1/8, is_sane(), and every edge for monotone castling rights, men and pawns. evaluations = nodes. Non-trivial = a playout containing a capture, a promotion and a rights change, or a complete tree of depth >= 3; distinct = fingerprints of (start, moves) / (root, depth).".into(),
             assumptions: vec!["reference attack detection (ray walking) decides 'left in check'".into()],
             trusted_base: vec!["harness/src/refmodel.rs (attacks only)".into(), "proptest 1.11".into()],
             exhaustive: None,
@@ -337,5 +367,8 @@ pub fn run(cfg: &Cfg) -> i32 {
 pub fn replay(ctx: &mut Ctx, case: &Value) -> Result<(), Violation> {
     let (start, moves) = gen::parse_hist_case(case).map_err(|e| ctx.violation("INFRA", e, Value::Null))?;
     let ex = Explicit { start, moves };
-    playout(ctx, &ex.start, Some(&ex.moves), None, ex.moves.len(), false)
+    if let (Some(src), Some(how)) = (case.get("start_obtained_from").and_then(|x| x.as_str()).and_then(|f| Pos::from_fen(f).ok()), case.get("through").and_then(|x| x.as_str())) {
+        return playout(ctx, &ex.start, Some((&src, how)), Some(&ex.moves), None, ex.moves.len(), false);
+    }
+    playout(ctx, &ex.start, None, Some(&ex.moves), None, ex.moves.len(), false)
 }
